@@ -114,6 +114,9 @@ func writeChunks(c *vnet.TCPConn, stream []byte, ch chunker, who string) {
 		sizes = append(sizes, fmt.Sprint(k))
 		peer := c
 		vm.Block("peer-wait-drain", func() bool { return peer.PeerUnread() == 0 || peer.PeerClosed() })
+		if chunkGapMs > 0 && off < len(stream) {
+			vm.Sleep(int64(chunkGapMs) * int64(time.Millisecond))
+		}
 	}
 	vm.Log("%s chunks=%s", who, strings.Join(sizes, ","))
 }
@@ -182,13 +185,20 @@ type conf struct {
 	// busy with it the application closes the client and sends again (new connection), which then
 	// receives c.items: the error on the old connection closes that connection only
 	replaceDuringError bool
+	// the receiving side has a read timeout of readTOms and the peer pauses gapMs after every chunk: the
+	// timeout falls between (and inside) packets
+	readTOms, gapMs int
 }
+
+// pause of the scripted peer after every chunk (set per scenario)
+var chunkGapMs int
 
 func scenario(c conf) *vm.Scenario {
 	sc := &vm.Scenario{Name: c.name, MaxSteps: 400000}
 	sc.Reset = func() {
 		rogger.SetLevel(rogger.OFF)
 		protocol.SetMaxPackageLength(c.maxLen)
+		chunkGapMs = c.gapMs
 	}
 	if c.client {
 		sc.Main = func() { clientMain(c) }
@@ -201,7 +211,7 @@ func scenario(c conf) *vm.Scenario {
 
 func serverMain(c conf) {
 	ts := transport.NewTarsServer(srvProto{}, &transport.TarsServerConf{Proto: "tcp", Address: addr, MaxInvoke: c.maxInvoke, QueueCap: 64,
-		IdleTimeout: 600 * time.Second})
+		IdleTimeout: 600 * time.Second, ReadTimeout: time.Duration(c.readTOms) * time.Millisecond})
 	if err := ts.Listen(); err != nil {
 		panic(err)
 	}
@@ -346,7 +356,7 @@ func clientMain(c conf) {
 		vm.Send(done, struct{}{})
 	})
 	cl := transport.NewTarsClient(addr, cliProto{}, &transport.TarsClientConf{Proto: "tcp", QueueLen: 8,
-		IdleTimeout: 600 * time.Second, DialTimeout: time.Second})
+		IdleTimeout: 600 * time.Second, DialTimeout: time.Second, ReadTimeout: time.Duration(c.readTOms) * time.Millisecond})
 	if err := cl.Send([]byte{0, 0, 0, 6, 9, 9}); err != nil {
 		panic(err)
 	}
@@ -569,6 +579,18 @@ func main() {
 		add(conf{name: side + " huge 4,131072,9", items: []item{V(4), V(131072), V(9)}, maxLen: 1 << 20, ch: func() chunker { return menuChunker(hm) }, client: client}, 0, true)
 	}
 	// (6) server only: worker pool, and a second connection in parallel
+	// a read timeout on the receiving side (100 ms, the client's default) and a peer that pauses 30 / 100 / 350 ms
+	// after every chunk: timeouts fall between packets, inside the length field and inside a body
+	for _, client := range []bool{false, true} {
+		side := "server"
+		if client {
+			side = "client"
+		}
+		for _, gap := range []int{30, 100, 350} {
+			add(conf{name: fmt.Sprintf("%s read-timeout=100ms peer pauses %dms after every chunk, seq 5,6,4 all-compositions", side, gap), items: []item{V(5), V(6), V(4)}, maxLen: 64, ch: comp, client: client, readTOms: 100, gapMs: gap}, 0, true)
+		}
+		add(conf{name: side + " read-timeout=100ms peer pauses 350ms sched 5+6 split 3,4,4", items: []item{V(5), V(6)}, maxLen: 64, ch: fixed(3, 4, 4), client: client, readTOms: 100, gapMs: 350}, 1, true)
+	}
 	add(conf{name: "server pool=1 seq 5,6,4 all-compositions", items: []item{V(5), V(6), V(4)}, maxLen: 64, ch: comp, maxInvoke: 1}, 0, true)
 	add(conf{name: "server two-conns illegal on A", items: []item{V(5), I(3)}, second: []item{V(6)}, maxLen: 64, ch: comp}, 0, true)
 	add(conf{name: "server two-conns sched", items: []item{V(5), I(3)}, second: []item{V(6)}, maxLen: 64, ch: func() chunker {
